@@ -40,10 +40,12 @@ def synthesize(name: str, bases: tuple[type, ...], **kwargs: Any) -> type:
     if SynthNode not in bases:
         bases = (*bases, SynthNode)
 
+    # NOTE a class synthesized earlier for another grammar is only reused when
+    #   it has the bases asked for now; otherwise the latest definition wins
     found = __registry.get(name)
-    if isinstance(found, type):
+    if isinstance(found, type) and found.__bases__ == bases:
         return found
-    elif found:
+    elif found and not isinstance(found, type):
         raise TypeError(f'Found {name!r} in context but its type is {type(found)!r}')
 
     def build_body(ns: dict[str, Any]) -> None:
